@@ -523,12 +523,7 @@ func writeReplay(p *Prog, verif, replayDir, prop string, n *NameResult, why stri
 			model := parseValues(o, n.Failing.Res.Output)
 			// guided search for a realistic model first
 			var gst []string
-			nguides := 0
-			for _, c := range o.Unit.fc.Clauses {
-				if c.Kind == "guide" {
-					nguides++
-				}
-			}
+			nguides := len(o.Guides)
 			budget := time.Now().Add(150 * time.Second)
 		search:
 			for gi := 0; gi < nguides; gi++ {
@@ -552,7 +547,7 @@ func writeReplay(p *Prog, verif, replayDir, prop string, n *NameResult, why stri
 			src, out, ok, err := runReplay(p, verif, o.Unit.fc.Replay, model, scratch)
 			rec["replay_adapter"] = o.Unit.fc.Replay
 			rec["replay_test_source"] = src
-			rec["replay_output"] = truncate(out, 6000)
+			rec["replay_output"] = replayExcerpt(out)
 			if err != nil {
 				rec["replay_error"] = err.Error()
 			}
@@ -577,32 +572,15 @@ func guidedModel(o *Oblig, scratch string, which int) (map[string]string, string
 	if u.fc == nil {
 		return nil, "no contract"
 	}
-	var extra []string
-	gi := -1
-	for _, c := range u.fc.Clauses {
-		if c.Kind != "guide" {
-			continue
-		}
-		gi++
-		if gi != which {
-			continue
-		}
-		env := u.bodyEnv(u.entry, u.fn)
-		env.paramsEntry = true
-		g, err := env.formula(c.Expr)
-		if err != nil {
-			return nil, "guide clause: " + err.Error()
-		}
-		extra = append(extra, g)
-	}
-	if len(extra) == 0 {
+	if which >= len(o.Guides) {
 		return nil, "no guide clause"
 	}
+	extra := []string{o.Guides[which]}
 	guideMode = true
 	q := o.query(extra, true)
 	guideMode = false
-	sv := &Solver{scratch: scratch, timeout: 8 * time.Second}
-	r := sv.solve(q, solverOrder(q))
+	sv := &Solver{scratch: scratch, timeout: 6 * time.Second}
+	r := sv.solve(q, []string{"z3-new", "cvc5"})
 	if r.Status != "sat" {
 		return nil, fmt.Sprintf("guide%d: %s %v", which+1, r.Status, r.Tried)
 	}
@@ -690,4 +668,24 @@ func cmdReplay(args []string) {
 	if strings.Contains(string(b), "PROPERTY-VIOLATED") {
 		os.Exit(1)
 	}
+}
+
+// replayExcerpt keeps the head of the test output and the lines around the oracle's verdict.
+func replayExcerpt(out string) string {
+	if len(out) <= 6000 {
+		return out
+	}
+	i := strings.Index(out, "PROPERTY-VIOLATED")
+	if i < 0 {
+		return out[:3000] + "\n...\n" + out[len(out)-2500:]
+	}
+	lo := i - 1500
+	if lo < 0 {
+		lo = 0
+	}
+	hi := i + 1500
+	if hi > len(out) {
+		hi = len(out)
+	}
+	return out[:1200] + "\n...\n" + out[lo:hi]
 }
